@@ -422,7 +422,7 @@ class StructuredForeign(Contract):
         return "import sys; sys.path.insert(0, %r)\nfrom native import c11\nc11.structured_foreign(%r)\n" % (_here(), self.what)
 
 
-CONFIGS = [((True,), 0, 0, True), ((True,), 2, 0), ((True, True), 1, 0), ((True, False), 1, 2), ((True, True, True), 2, 0), ((False, True, True), 0, 2), ((True, True), 2, 2)]
+CONFIGS = [((True,), 0, 0, True), ((True,), 2, 0), ((True, True), 1, 0), ((True, False), 1, 2), ((True, True, True), 2, 0), ((False, True, True), 0, 2), ((True, True), 2, 2), ((False, False, True), 1, 0), ((True, True, True), 1, 2)]
 
 
 def contracts():
